@@ -149,8 +149,13 @@ def check_send(run, F, fn, kind):
                 run.ob("R-HTTPSHAPE", "%s: path after send examines the status" % short, False, "path returns %s without status check or parse" % tshow(p.ret)[:120], site(b),
                        key="R-HTTPSHAPE|%s|no-status-check" % fn)
         else:
+            explicit_err = p.ret[0] == "ctor" and p.ret[1].endswith("::Err") and any(
+                c[0] == "match" and (c[1] is st or is_call(c[1], send_name)) and "Err" in c[2] and c[3] is not False and not c[2].startswith("!") for c in p.conds) and \
+                has_sub(p.ret, lambda x: x is st or is_call(x, send_name))
             if parses:
                 n_parse_paths += 1
+            elif explicit_err:
+                pass        # `match send { Ok(r) => r, Err(e) => return Err(e.into()) }`: the spelled-out form of `?`
             elif p.kind != "try":
                 run.ob("R-HTTPSHAPE", "%s: response is parsed" % short, False, "path returns %s without parsing the response" % tshow(p.ret)[:120], site(b),
                        key="R-HTTPSHAPE|%s|no-parse" % fn)
@@ -161,6 +166,22 @@ def check_send(run, F, fn, kind):
             oksrc = has_sub(pt, lambda x: is_call(x, srcname) and has_sub(x[2][0], lambda y: y is st or (is_call(y, send_name))))
             run.ob("R-HTTPSHAPE", "%s: parser reads the response body stream" % short, oksrc, "parser source: %s" % tshow(pt[2][0])[:200], site(b, pt[3]),
                    key="R-HTTPSHAPE|%s|parse-source" % fn)
+            # ... of the *successful* exchange: an Err(Status(_, response)) of the HTTP layer must never be parsed as a reply
+            resp_terms = [x[2][0] for x in subterms(pt) if is_call(x, srcname) and x[2]]
+            def ok_of_send(r):
+                while isinstance(r, tuple) and r[0] in ("ref", "deref"):
+                    r = r[1]
+                if isinstance(r, tuple) and r[0] == "proj" and str(r[2]).startswith("Ok."):
+                    r = ("ok?", r[1])          # the Ok arm of a match on the send result
+                if not (isinstance(r, tuple) and r[0] == "ok?"):
+                    return False
+                inner = r[1]
+                while isinstance(inner, tuple) and inner[0] == "await":
+                    inner = inner[1]
+                return inner is st or is_call(inner, send_name)
+            run.ob("R-HTTPSHAPE", "%s: the parsed response is the Ok result of the send (`?`-propagated)" % short, bool(resp_terms) and all(ok_of_send(r) for r in resp_terms),
+                   "the response whose body is parsed is %s: an HTTP-level error (status >= 400 in ureq, transport failure) would be turned into a successful IPP reply" % (
+                       [tshow(r)[:120] for r in resp_terms]), site(b, pt[3]), key="R-HTTPSHAPE|%s|parse-ok-response" % fn)
             # ... the whole of it: only reviewed pass-through adaptors between the body stream and the parser
             chain_bad = []
 
@@ -236,14 +257,42 @@ def check_builder(run, F):
                 and p.ret == ("var", "self")
             run.ob("R-CONFIG-LIVE", "http_header stores (key, value) un-swapped", ok, [tshow(t)[:160] for t in ins], site(b),
                    key="R-CONFIG-LIVE|%shttp_header" % BUILDER)
+    check_ca_cert_setter(run, F)
     b = F.body(BUILDER + "request_timeout")
     if b is None:
         run.anchor_lost("R-CONFIG-LIVE", BUILDER + "request_timeout")
     else:
         for p in paths_of(b):
             v = p.env.get((b["params"][0].get("id"), "request_timeout"))
-            ok = v is not None and v[0] == "ctor" and v[1].endswith("::Some") and v[2][0] == ("var", b["params"][1].get("name")) and p.ret == ("var", "self")
+            dur = ("var", b["params"][1].get("name"))
+            ok = v is not None and p.ret == ("var", "self") and (
+                (v[0] == "ctor" and v[1].endswith("::Some") and v[2][0] == dur) or
+                (is_call(v, "std::convert::Into::into", "std::convert::From::from") and v[2][0] == dur))     # Option<T>: From<T> is Some
             run.ob("R-CONFIG-LIVE", "request_timeout stores Some(duration)", ok, tshow(v), site(b), key="R-CONFIG-LIVE|%srequest_timeout" % BUILDER)
+
+
+IDENTITY_CONV = {"as_ref", "to_owned", "to_vec", "into", "from", "borrow", "clone", "deref", "as_slice", "into_vec", "to_bytes", "as_bytes"}
+
+
+def check_ca_cert_setter(run, F):
+    """ca_cert(data) appends exactly the caller's bytes (PEM or DER is decided later, on the whole data)."""
+    b = F.body(BUILDER + "ca_cert")
+    if b is None:
+        run.anchor_lost("R-CONFIG-LIVE", BUILDER + "ca_cert")
+        return
+    for p in paths_of(b):
+        pushes = [t for t in p.trace if is_call(t) and t[1].endswith("::push") and t[2] and t[2][0] == ("field", ("var", "self"), "ca_certs")]
+        ok = len(pushes) == 1 and p.ret == ("var", "self")
+        why = "%d push(es) into ca_certs" % len(pushes)
+        if ok:
+            v = pushes[0][2][1]
+            names = [x[1].split("::")[-1] for x in subterms(v) if x[0] == "call"]
+            leaves = [x for x in subterms(v) if x[0] == "var"]
+            ok = all(n in IDENTITY_CONV for n in names) and leaves == [("var", b["params"][1].get("name"))]
+            why = "stored value is %s" % tshow(v)[:160]
+        run.ob("R-CONFIG-LIVE", "ca_cert stores the caller's certificate bytes unchanged", ok,
+               "%s (a trimmed, filtered or re-encoded root no longer parses or no longer matches; accepted conversions: %s)" % (why, sorted(IDENTITY_CONV)), site(b),
+               key="R-CONFIG-LIVE|%sca_cert|stored-unchanged" % BUILDER)
 
 
 # pass-through adaptors accepted between the HTTP response body and the parser (each delivers every byte, in order)
@@ -307,5 +356,10 @@ def check(run, views, tier):
             done += 1
         if done:
             check_builder(run, F)
+            # "a connection cut before the end of the attributes yields an error": the reader/parser error discipline of C07
+            from .. import readerrules as rr
+            rr.r_propagate(run, F)
+            rr.r_stop_onlyexit(run, F)
+            rr.r_errwrap(run, F)
         else:
             run.note("no client compiled under cfg %s" % cfg)
